@@ -64,7 +64,7 @@ def main(ctx):
     # x and scale, zero point, quantized values) are checked in exact integer arithmetic.
     if (not rep or rep_d) and (os.environ.get('VERIF_FAST') != '1' or os.environ.get('VERIF_DQ') == '1'):
         bindir2 = ctx.harness(GROUP, profile="release", features="ops", bins=["c17dq"])
-        dq = ctx.gen_exec(bindir2, "c17dq", ctx.n(60, 300), inputs=rep_d)
+        dq = ctx.gen_exec(bindir2, "c17dq", ctx.n(60, 150), inputs=rep_d)
         ctx.correspond("dynamic-quantize-within-one-step", GROUP, REQDQ, dq, show="show", agree="always", prop_ok="prop_ok",
                        shard=max(4, -(-len(dq) // vf.NCPU)), fn_name="rten::ops::dynamic_quantize_linear::<u8> outputs")
     if os.environ.get('VERIF_FAST') == '1':
